@@ -851,7 +851,7 @@ def check_witnesses(run, mods, kf) -> int:
             if listed:
                 run.known_finding(fid, f"{listed[0].text} [witness prints {before!r} before, {after!r} after]")
             else:
-                run.violation({"kind": "property-oracle", "site": site, "source": src, "output": new,
+                run.violation({"tranche": "expr", "kind": "property-oracle", "site": site, "source": src, "output": new,
                                "problem": f"stdout {before!r} vs {after!r}",
                                "explanation": "witness program of an unmodelled rule prints something else after the rewrite"}, True)
         elif listed:
@@ -1029,11 +1029,11 @@ def check(run, mods, wd, rnd) -> dict:
     for site, f in failures:
         seen_sites[site] += 1
         if seen_sites[site] <= 2:
-            run.violation({"kind": "property-oracle", "site": site, **{k: (repr(v) if k == "env" else v) for k, v in f.items()},
+            run.violation({"tranche": "expr", "kind": "property-oracle", "site": site, **{k: (repr(v) if k == "env" else v) for k, v in f.items()},
                            "explanation": "executing the rewritten expression gives a different value / call log"}, True)
     if not failures:
         for d in (disagreements + sem_bad)[:5]:
-            run.violation({**d, "kernel": "RulesExpr",
+            run.violation({"tranche": "expr", **d, "kernel": "RulesExpr",
                            "explanation": "model and implementation (or model and CPython) disagree; the property "
                                           "oracle found no differing execution on the explored valuations"}, False)
     elif disagreements or sem_bad:
